@@ -209,7 +209,11 @@ class Reshape(Family):
             x = sp_case(rng, s)
             N = len(s)
             for r in range(1, N + 1):
-                for om in itertools.combinations(range(N), r):
+                # the selected modes in EVERY listed order (they are linearised in that order)
+                oms = list(itertools.permutations(range(N), r))
+                if tier == "quick" and len(oms) > 12:
+                    oms = rng.sample(oms, 12)
+                for om in oms:
                     k = gen.numel([s[m] for m in om])
                     ts = factorizations(k, 3)
                     t = rng.choice(ts)
@@ -250,6 +254,23 @@ class Reshape(Family):
                     flat_after = sp_to_dense_j(ic["ok"])["data"]
                 if not deep_eq(flat_after, flat_before) or ic["ok"]["shape"] != c["shape"]:
                     v = Verdict("violation", "reshape changed the first-index-fastest order of the entries", impl, m, flat_before, tags)
+            if v.status == "ok" and "ok" in ic and c["old_modes"] is not None and c["rep"] == "sparse":
+                # index formula for the partial reshape: kept modes first (increasing), then the
+                # listed modes linearised in the listed order, first listed mode fastest
+                om = c["old_modes"]
+                keep = [m for m in range(len(x["shape"])) if m not in om]
+                oshape = [x["shape"][m] for m in om]
+                at_new = sp_at(ic["ok"])
+                at_old = sp_at(x)
+                for i in gen.all_subs(x["shape"]):
+                    lin = f_index(oshape, [i[m] for m in om])
+                    j, rem = [], lin
+                    for d in c["shape"]:
+                        j.append(rem % d)
+                        rem //= d
+                    if at_new([i[m] for m in keep] + j) != at_old(i):
+                        v = Verdict("violation", f"partial reshape moved entry {i} to the wrong position", impl, m, None, tags)
+                        break
             if "ok" in ic and gen.numel(c["shape"]) != gen.numel(x["shape"] if c["old_modes"] is None else [x["shape"][k] for k in c["old_modes"]]):
                 v = Verdict("violation", "reshape accepted a target with a different element count", impl, m, None, tags)
             out.append(v)
